@@ -5,6 +5,7 @@ import (
 	"fmt"
 	"io"
 	"sort"
+	"strings"
 
 	"github.com/parquet-go/parquet-go"
 	"github.com/parquet-go/parquet-go/format"
@@ -63,8 +64,8 @@ func (C11) New() any { return &C11Scenario{} }
 
 func (C11) Gen(t *tape.Tape, tier string) any {
 	sc := &C11Scenario{}
-	shapes := []gen.Shape{gen.ShapeFlat, gen.ShapeNested, gen.ShapeLogical}
-	sh := shapes[t.Draw(len(shapes))]
+	shapes := []gen.Shape{gen.ShapeFlat, gen.ShapeNested, gen.ShapeLogical, gen.ShapeDyn, gen.ShapeGen}
+	sh := gen.Resolve(t, shapes[t.Draw(len(shapes))])
 	sc.Shape = sh.Name()
 	sc.Source = []string{"file", "multi", "buffer", "merged", "convert", "dedupe", "foreign"}[t.Weighted(5, 2, 3, 4, 1, 2, 2)]
 	sc.Profile = t.Draw(3)
@@ -289,6 +290,7 @@ func c11Execute(c *core.Ctx, sc *C11Scenario, sh gen.Shape, data, pre gen.Data, 
 	}
 
 	var sources []parquet.RowGroup
+	var fileRowGroups []parquet.RowGroup // file-backed row groups behind the sources
 	dstSchema := sh.Schema()
 	switch sc.Source {
 	case "file", "multi", "convert", "foreign":
@@ -297,6 +299,7 @@ func c11Execute(c *core.Ctx, sc *C11Scenario, sh gen.Shape, data, pre gen.Data, 
 			return nil, nil, v
 		}
 		rgs := f.RowGroups()
+		fileRowGroups = rgs
 		switch sc.Source {
 		case "file":
 			sources = rgs
@@ -410,6 +413,7 @@ func c11Execute(c *core.Ctx, sc *C11Scenario, sh gen.Shape, data, pre gen.Data, 
 			return nil, nil, core.Violate("C11/write-error/pre-rows", "%v", err)
 		}
 	}
+	indexBefore := c11IndexBounds(fileRowGroups)
 	for i, src := range sources {
 		if src.NumRows() == 0 && sc.Source != "foreign" {
 			continue
@@ -421,6 +425,13 @@ func c11Execute(c *core.Ctx, sc *C11Scenario, sh gen.Shape, data, pre gen.Data, 
 	}
 	if err := w.Close(); err != nil {
 		return nil, nil, core.Violate("C11/write-error/close", "%v", err)
+	}
+	// an application goes on with the writer (Reset for the next file) and with the
+	// source: the page index of the source must still say what it said
+	_, nextFace := env.NewSink(c, env.SinkFaces{}, nil)
+	w.Reset(nextFace)
+	if after := c11IndexBounds(fileRowGroups); after != indexBefore {
+		return nil, nil, core.Violate("C11/source-damaged/"+sc.Source, "the column index bounds of the source row groups changed after WriteRowGroup, Close and Writer.Reset (first difference at byte %d of the rendering)", firstDiff([]byte(indexBefore), []byte(after)))
 	}
 	// the sources must come out of WriteRowGroup as they went in: file-backed row
 	// groups still read and seek as before (the row path only reads them)
@@ -648,4 +659,37 @@ func c11PageStarts(rg parquet.RowGroup, rows []parquet.Row, source string) *core
 		pages.Close()
 	}
 	return nil
+}
+
+// c11IndexBounds renders the page bounds of the column indexes of file-backed row groups.
+func c11IndexBounds(rgs []parquet.RowGroup) string {
+	var b strings.Builder
+	for gi, rg := range rgs {
+		for ci, cc := range rg.ColumnChunks() {
+			ix, err := cc.ColumnIndex()
+			if err != nil || ix == nil {
+				continue
+			}
+			fmt.Fprintf(&b, "%d/%d:", gi, ci)
+			for p := 0; p < ix.NumPages(); p++ {
+				if ix.NullPage(p) {
+					b.WriteString(" null")
+					continue
+				}
+				b.WriteString(" ")
+				b.WriteString(boundString(ix, p))
+			}
+			b.WriteString("\n")
+		}
+	}
+	return b.String()
+}
+
+func boundString(ix parquet.ColumnIndex, p int) (s string) {
+	defer func() {
+		if r := recover(); r != nil {
+			s = fmt.Sprintf("<panic %v>", r)
+		}
+	}()
+	return fmt.Sprintf("%x..%x", ix.MinValue(p).Bytes(), ix.MaxValue(p).Bytes())
 }
